@@ -32,6 +32,7 @@ CONSTANTS
   WriteFaults,\* TRUE: the store may refuse the block write of an append
   ForkOn,    \* replicas that may be rebuilt from another replica's entries and heads (NewLog with options) ({} = never)
   Payloads,  \* payload kinds offered to Append: "p" (some bytes), "empty" (zero-length payload - accepted, signed, stored)
+  ForkModes, \* how a Fork hands over the entries: "copy" (GetEntries(): a copy) and/or "live" (the source's own entry index)
   CrossFork, \* TRUE: a Fork may also take the entries of a replica with ANOTHER log id (a log with its own id built on foreign entries)
   LoadKinds  \* loaders by which a ForkOn replica may be rebuilt from the store: "entry","json","hash","mh" ({} = never)
 
@@ -173,15 +174,16 @@ SetIdentity(r, w) ==
 (* genuinely signed entries that carry a foreign id below its own ones -   *)
 (* which a merge from it must not admit (C06).                             *)
 (***************************************************************************)
-Fork(r, s) ==
-  /\ CanOp /\ r \in ForkOn /\ r # s /\ (Lid[r] = Lid[s] \/ CrossFork) /\ ents[s] # {}
+\* NewLog copies the entries it is given, so both modes have the same effect
+Fork(r, s, mode) ==
+  /\ CanOp /\ mode \in ForkModes /\ r \in ForkOn /\ r # s /\ (Lid[r] = Lid[s] \/ CrossFork) /\ ents[s] # {}
   /\ bad[r] = {} /\ bad[s] = {}
   /\ ents'  = [ents EXCEPT ![r] = ents[s]]
   /\ heads' = [heads EXCEPT ![r] = SortIds(U, Fn, heads[s], TRUE)]      \* given in Heads() order
   /\ nidx'  = [nidx EXCEPT ![r] = NextsOf(U, ents[s])]
   /\ clk'   = [clk EXCEPT ![r] = MaxTimeOf(U, heads[s], 0)]
   /\ pure'  = [pure EXCEPT ![r] = pure[s] /\ Lid[r] = Lid[s]]
-  /\ hist'  = Append(hist, <<"F", r, s>>)
+  /\ hist'  = Append(hist, IF mode = "copy" THEN <<"F", r, s>> ELSE <<"F", r, s, mode>>)
   /\ UNCHANGED <<U, ident, bad>>
 
 (***************************************************************************)
@@ -266,7 +268,7 @@ Iterate(r, o) ==
   /\ UNCHANGED core
 
 Next ==
-  \/ \E r \in ForkOn, s \in R : Fork(r, s)
+  \/ \E r \in ForkOn, s \in R, mode \in ForkModes : Fork(r, s, mode)
   \/ \E r \in ForkOn, s \in R, k \in LoadKinds : \E h \in SeqRange(heads[s]) : Load(r, s, k, h)
   \/ \E r \in PubOn : Publish(r)
   \/ \E r \in Evil, k \in Kinds : \E x \in ents[r] : Tamper(r, x, k)
